@@ -300,7 +300,9 @@ def check_property(prop, tier, seed, jobs, verbose):
 
     # ---- failed obligations: refute natively, else report with solver output --------------------------
     for (key, ctx), obs in failed.items():
-        names = sorted({canon(o["name"]) for o in obs})
+        # obligations that went through the whole plan first, the curtailed ones (quick attempts only) after them
+        names = list(dict.fromkeys([canon(o["name"]) for o in obs if not o.get("curtailed")]
+                                   + [canon(o["name"]) for o in obs if o.get("curtailed")]))
         res = native_res.get((key, ctx)) or {"status": "no-generator"}
         remaining = []
         for n in names:
@@ -313,7 +315,8 @@ def check_property(prop, tier, seed, jobs, verbose):
             continue
         violations += 1
         solver = [{"obligation": canon(o["name"]), "raw": o["name"], "status": o["status"], "reason": o.get("reason"),
-                   "tries": o.get("tries"), "model": o.get("model"), "line": o["line"]} for o in obs]
+                   "tries": o.get("tries"), "model": o.get("model"), "line": o["line"],
+                   **({"curtailed": True} if o.get("curtailed") else {})} for o in obs]
         if res.get("status") == "refuted":
             ob = next((n for n in remaining if n.endswith(res["failure"]["clause"])), remaining[0])
             path = write_replay(prop, ob, {"key": key, "ctx": ctx, "case": res["case"], "failure": res["failure"],
